@@ -30,6 +30,8 @@ def gen_case(rng):
         "test_mode": False, "delay": rng.choice(["zero", "small", "heavy"]), "epsilon": rng.choice([0.0, 0.5]), "wakeup_jitter": 0.0,
         "clock_offsets": True, "seed": rng.randint(0, 1 << 40), "keep_bodies": True,
     }
+    if case["e2e_bulk"]["second"] and rng.random() < 0.4:
+        case["e2e_bulk"]["second"] = {"same_op": True, "ndocs": ndocs, "clients": rng.choice([clients, clients, max(1, clients - 1)])}
     return case
 
 
@@ -51,7 +53,8 @@ def write_track(case, directory):
     spec = case["e2e_bulk"]
     os.makedirs(directory, exist_ok=True)
     corpora, ops, tasks, indices = [], [], [], []
-    parts = [("A", spec["ndocs"], spec["clients"])] + ([("B", spec["second"]["ndocs"], spec["second"]["clients"])] if spec.get("second") else [])
+    same_op = bool(spec.get("second") and spec["second"].get("same_op"))
+    parts = [("A", spec["ndocs"], spec["clients"])] + ([("B", spec["second"]["ndocs"], spec["second"]["clients"])] if spec.get("second") and not same_op else [])
     for tag, ndocs, clients in parts:
         data = corpus_bytes(ndocs, spec["with_meta"], spec["multibyte"], tag)
         with open(os.path.join(directory, f"docs{tag}.json"), "wb") as f:
@@ -71,6 +74,12 @@ def write_track(case, directory):
         if spec.get("throttle_per_client"):
             task["target-throughput"] = spec["throttle_per_client"] * clients
         tasks.append(task)
+    if same_op:
+        # a second, differently named task on the SAME operation in the same parallel element: every task ingests the corpus on its own
+        tasks[0]["name"] = "bulkA-first"
+        tasks.append(dict(tasks[0], name="bulkA-again", clients=spec["second"]["clients"]))
+        if spec.get("throttle_per_client"):
+            tasks[1]["target-throughput"] = spec["throttle_per_client"] * spec["second"]["clients"]
     schedule = [tasks[0]] if len(tasks) == 1 else [{"parallel": {"tasks": tasks}}]
     trk = {"version": 2, "description": "verif bulk track", "indices": indices, "corpora": corpora, "operations": ops,
            "challenges": [{"name": "c", "default": True, "schedule": schedule}]}
@@ -130,14 +139,16 @@ def race_case(ctx, rng, explicit=None):
                 per_client.setdefault((r["client"], tag), []).append(n)
         if spec["ingest_percentage"] is None:
             ctx.clause("e2e:exactly-once")
-            expected = [("A", i) for i in range(spec["ndocs"])] + ([("B", i) for i in range(spec["second"]["ndocs"])] if spec.get("second") else [])
-            missing = [k for k in expected if k not in seen]
-            dup = [i for i, c in seen.items() if c > 1]
+            same_op = bool(spec.get("second") and spec["second"].get("same_op"))
+            times = 2 if same_op else 1
+            expected = [("A", i) for i in range(spec["ndocs"])] + ([("B", i) for i in range(spec["second"]["ndocs"])] if spec.get("second") and not same_op else [])
+            missing = [k for k in expected if seen.get(k, 0) < times]
+            dup = [i for i, c in seen.items() if c > times]
             if missing or dup:
                 problems.append(("e2e:exactly-once", f"{spec}: workers {tr.workers}: documents never ingested {missing[:5]} ({len(missing)}), ingested more than once {dup[:5]} ({len(dup)})", None))
         else:
             ctx.clause("e2e:ingest-percentage-subset")
-            if any(c > 1 for c in seen.values()):
+            if any(c > (2 if spec.get("second") and spec["second"].get("same_op") else 1) for c in seen.values()):
                 problems.append(("e2e:ingest-percentage-subset", f"{spec}: documents ingested more than once under ingest-percentage", None))
         ctx.clause("e2e:client-order")
         for c, ns in per_client.items():
@@ -148,6 +159,8 @@ def race_case(ctx, rng, explicit=None):
             feats.add("e2e:multi-worker")
         if spec.get("second"):
             feats.add("e2e:two-bulk-tasks-in-parallel")
+            if spec["second"].get("same_op"):
+                feats.add("e2e:two-tasks-on-one-operation")
         if spec.get("batch_factor") and spec.get("throttle_per_client") and spec["clients"] > len(tr.workers) and spec["ndocs"] > 2 * spec["bulk_size"]:
             feats.add("e2e:throttled-batches-shared-source")
     ctx.case(["e2e", case], True, feats)
